@@ -26,6 +26,56 @@ TUPLE_OB_ITEM = 24
 BYTES_OB_SVAL = 32
 
 
+_FMOD = {}
+
+
+def fmod_model(ex, x, y):
+    """C99 7.12.10.1 / Annex F.9.7.1 contract of fmod as an uninterpreted function (shared by implementation and reference)"""
+    sort = x.sort()
+    key = (sort.ebits(), sort.sbits())
+    f = _FMOD.get(key)
+    if f is None:
+        f = _FMOD[key] = z3.Function('fmod_%d_%d' % key, sort, sort, sort)
+    r = f(x, y)
+    nan = z3.Or(z3.fpIsNaN(x), z3.fpIsNaN(y), z3.fpIsInf(x), z3.fpIsZero(y))
+    contract = z3.If(nan, z3.fpIsNaN(r),
+                z3.If(z3.fpIsInf(y), r == x,
+                 z3.If(z3.fpIsZero(x), r == x,
+                  z3.And(z3.Not(z3.fpIsNaN(r)), z3.Not(z3.fpIsInf(r)), z3.fpLT(z3.fpAbs(r), z3.fpAbs(y)),
+                         z3.fpIsNegative(r) == z3.fpIsNegative(x),
+                         z3.Implies(z3.fpLT(z3.fpAbs(x), z3.fpAbs(y)), r == x)))))
+    if ex is not None:
+        ex.assumptions.append(contract)
+        # exact values on a small grid (ground facts about the real fmod): lets the solver produce counterexamples that
+        # replay, by first looking for one whose operands lie on the grid (see grid_constraint)
+        if not hasattr(ex, 'fmod_apps'):
+            ex.fmod_apps = []
+        if not any(x.eq(a) and y.eq(b) for a, b in ex.fmod_apps):
+            ex.fmod_apps.append((x, y))
+        key2 = ('grid',) + key
+        if key2 not in getattr(ex, '_fmod_grid_done', set()):
+            import math
+            ex._fmod_grid_done = getattr(ex, '_fmod_grid_done', set()) | {key2}
+            for p in FMOD_GRID:
+                for q in FMOD_GRID:
+                    if q != 0:
+                        ex.assumptions.append(f(z3.FPVal(p, sort), z3.FPVal(q, sort)) == z3.FPVal(math.fmod(p, q), sort))
+    return r
+
+
+FMOD_GRID = [-4.0, -3.0, -2.0, -1.5, -1.0, -0.5, 0.5, 1.0, 1.5, 2.0, 3.0, 4.0, 0.0]
+
+
+def grid_constraint(ex):
+    """all operands of fmod applications lie on the grid where the model of fmod is exact"""
+    cs = []
+    for x, y in getattr(ex, 'fmod_apps', []):
+        for v in (x, y):
+            if not z3.is_fp_value(v):
+                cs.append(z3.Or(*[v == z3.FPVal(p, v.sort()) for p in FMOD_GRID]))
+    return cs
+
+
 class Env:
     """ghost state + stub table bound to one Exec"""
 
@@ -312,6 +362,31 @@ class Env:
         @stub('__Pyx_ErrOccurredWithGIL')
         def _(g, a, rt):
             return z3.If(self.error_indicator() != 0, z3.BitVecVal(1, 32), z3.BitVecVal(0, 32))
+
+        # ---- libm with exact IEEE meaning, and fmod as an uninterpreted function under its C99 contract
+        @stub('floor', 'floorf')
+        def _(g, a, rt):
+            return z3.fpRoundToIntegral(z3.RTN(), a[0])
+
+        @stub('ceil', 'ceilf')
+        def _(g, a, rt):
+            return z3.fpRoundToIntegral(z3.RTP(), a[0])
+
+        @stub('trunc', 'truncf')
+        def _(g, a, rt):
+            return z3.fpRoundToIntegral(z3.RTZ(), a[0])
+
+        @stub('fabs', 'fabsf')
+        def _(g, a, rt):
+            return z3.fpAbs(a[0])
+
+        @stub('copysign', 'copysignf')
+        def _(g, a, rt):
+            return z3.If(z3.fpIsNegative(a[1]), z3.fpNeg(z3.fpAbs(a[0])), z3.fpAbs(a[0]))
+
+        @stub('fmod', 'fmodf')
+        def _(g, a, rt):
+            return fmod_model(ex, a[0], a[1])
 
         @stub('labs', 'llabs', 'abs')
         def _(g, a, rt):
